@@ -236,6 +236,9 @@ func (e *Engine) evalBuiltin(name string, cx *ast.CallExpr, st *State) Value {
 		ref := e.fresh("new_"+typeShort(t), SRef)
 		e.localRefs[ref.String()] = true
 		e.dynType[ref.String()] = types.NewPointer(t)
+		if dn := dynTypeName(t); dn != "" {
+			st.assume(mkEq(mkApp("dyntype", SInt, ref), typeTag(dn)))
+		}
 		return VTerm{T: ref, Typ: types.NewPointer(t)}
 	case "delete":
 		m, ok := e.eval(cx.Args[0], st).(VMap)
@@ -1357,6 +1360,9 @@ func (e *Engine) imports(label string) bool {
 		return false
 	}
 	for _, cl := range fi.Contract.byKind("import", "") {
+		if cl.Label == label { // the first quoted name is parsed as the clause label
+			return true
+		}
 		for _, n := range cl.Names {
 			if strings.Trim(n, `"`) == label {
 				return true
